@@ -29,7 +29,7 @@
 (*     new bytes)                                                          *)
 (*     binding the harness' value classes to NewValue.                     *)
 (***************************************************************************)
-EXTENDS FaultModel, Json
+EXTENDS FaultModel, Json, Bitwise
 
 CONSTANTS MaxSeq, Triples, FilePairs,     \* FilePairs: "none" | "reduced" | "full"
           ReducedPairVC                  \* value classes of the reduced pair alphabet
@@ -134,7 +134,7 @@ Ov(f, vc)  == [k |-> "Overwrite", off |-> f.off, w |-> f.w, vc |-> vc, tlen |-> 
 HasSib(vc, po, no) == (vc \in PrevClasses => po >= 0) /\ (vc \in NextClasses => no >= 0)
 FaultsOf(kind) ==
   LET fs == FieldsOf(kind)  rs == RecsOf(kind) IN
-       {x \in {Ov(f, vc) : f \in fs, vc \in ValueClasses} : ClassApplies(x.vc, x.role) /\ HasRef(x.vc, x.sv, x.pv) /\ HasDer(x.vc, x.dv) /\ HasSib(x.vc, x.po, x.no)}
+       {x \in {Ov(f, vc) : f \in fs, vc \in ValueClasses} : ClassApplies(x.vc, x.role) /\ HasRef(x.vc, x.sv, x.pv) /\ HasDer(x.vc, x.dv) /\ HasBit(x.vc, x.w) /\ HasSib(x.vc, x.po, x.no)}
   \cup {[k |-> "Truncate", at |-> f.off] : f \in fs} \cup {[k |-> "Truncate", at |-> f.off + 1] : f \in fs}
   \cup {[k |-> "RemoveTable", rec |-> r.rec, size |-> r.size, cnt |-> r.cnt, idx |-> r.idx, n |-> r.n] : r \in rs}
   \cup {[k |-> "ShrinkLength", off |-> r.lenField, mode |-> m] : r \in rs, m \in ShrinkModes}
@@ -159,6 +159,8 @@ ValCases ==
           vc \in RefClasses, old \in Olds, sv \in {0, 5, 300, 70000, 16909060}, pv \in {0, 44, 65535, 65536}}
   \cup {[t |-> "val", vc |-> vc, old |-> old, flen |-> 53, tlen |-> 255, sv |-> -1, pv |-> -1, dv |-> dv, pb |-> <<>>, nb |-> <<>>] :
           vc \in DerClasses, old \in Olds, dv \in {1, 2, 5, 8, 255, 256, 257, 65535, 65536, 70001, 16909060}}
+  \cup {x \in {[t |-> "val", vc |-> vc, old |-> old, flen |-> 53, tlen |-> 255, sv |-> -1, pv |-> -1, dv |-> -1, pb |-> <<>>, nb |-> <<>>] :
+                 vc \in BitClasses, old \in Olds} : HasBit(x.vc, Len(x.old))}
   \cup UNION {{[t |-> "val", vc |-> vc, old |-> old, flen |-> 53, tlen |-> 255, sv |-> -1, pv |-> -1, dv |-> -1, pb |-> pb, nb |-> nb] :
                  vc \in RelClasses, pb \in {x \in Olds : Len(x) = Len(old)}, nb \in {x \in Olds : Len(x) = Len(old)}} : old \in Olds}
 
@@ -214,6 +216,19 @@ DerHolds(vc, w, new, dv) ==
   /\ CASE vc = "der-1"    -> Inc(new) = BytesOf(dv, w)
         [] vc = "der-half" -> Dbl(new) = BytesOf(dv, w) \/ Inc(Dbl(new)) = BytesOf(dv, w)
 
+\* what a bit class promises about the new value `new` of a field that held `old`, stated with the bitwise
+\* exclusive-or of the Bitwise module and not with the arithmetic of FlipBit: old XOR new has exactly the bit
+\* the class names - in the byte that holds it the XOR is that power of two (counted by halving), in every
+\* other byte it is zero - so exactly one bit differs, and toggling again gives the old value back
+RECURSIVE Log2(_)
+Log2(n) == IF n <= 1 THEN 0 ELSE 1 + Log2(n \div 2)
+BitHolds(vc, old, new) ==
+  LET w == Len(old)  n == BitNo(vc)  pos == w - (n \div 8) IN
+  /\ Len(new) = w /\ n < 8 * w
+  /\ \A k \in 1 .. w : IF k = pos THEN LET x == old[k] ^^ new[k] IN x > 0 /\ (x & (x - 1)) = 0 /\ Log2(x) = n % 8
+                                   ELSE old[k] ^^ new[k] = 0
+  /\ NewValue(vc, new, 0, 0, -1, -1, -1, <<>>, <<>>) = old
+
 ---------------------------------------------------------------------------
 \* the model's own lemmas, checked on every file case (one evaluation of the faulted file, its view
 \* and its expectation per case; Assert names the lemma that fails)
@@ -222,6 +237,7 @@ LemmasAndEmit ==
     CASE c.t = "gen"  -> PrintT(<<"CASE", ToJson(c)>>)
       [] c.t = "val"  -> /\ Assert(c.vc \in RelClasses => RelHolds(c.vc, Len(c.old), NewValue(c.vc, c.old, c.flen, c.tlen, c.sv, c.pv, c.dv, c.pb, c.nb), c.pb, c.nb), "LemmaRelValue")
                          /\ Assert(c.vc \in DerClasses => DerHolds(c.vc, Len(c.old), NewValue(c.vc, c.old, c.flen, c.tlen, c.sv, c.pv, c.dv, c.pb, c.nb), c.dv), "LemmaDerValue")
+                         /\ Assert(c.vc \in BitClasses => BitHolds(c.vc, c.old, NewValue(c.vc, c.old, c.flen, c.tlen, c.sv, c.pv, c.dv, c.pb, c.nb)), "LemmaBitValue")
                          /\ Assert(c.vc = "half" => LET n == NewValue(c.vc, c.old, c.flen, c.tlen, c.sv, c.pv, c.dv, c.pb, c.nb) IN
                                                      (Dbl(n) = c.old \/ Inc(Dbl(n)) = c.old) /\ n[1] < 128, "LemmaHalfValue")
                          /\ PrintT(<<"VAL", ToJson([vc |-> c.vc, old |-> c.old, flen |-> c.flen, tlen |-> c.tlen, sv |-> c.sv, pv |-> c.pv, dv |-> c.dv,
@@ -285,6 +301,13 @@ LemmasAndEmit ==
                                  /\ e.font.tabs[f.rec].st = "Ok"
                                  /\ e.font.tabs[f.rec].len = (IF f.vc = "der-1" THEN f.dv - 1 ELSE f.dv \div 2),
                         "LemmaDer")
+              \* a single bit-class overwrite leaves every byte of the file but one as it was and toggles the named bit there
+              /\ Assert((Len(c.seq) = 1 /\ c.seq[1].k = "Overwrite" /\ c.seq[1].vc \in BitClasses) =>
+                           LET f == c.seq[1]  at == f.off + f.w - (BitNo(f.vc) \div 8) IN
+                           /\ Len(bs) = Len(base) /\ HasBit(f.vc, f.w)
+                           /\ BitHolds(f.vc, Window(base, f.off, f.w), Window(bs, f.off, f.w))
+                           /\ \A q \in 1 .. Len(bs) : q # at => bs[q] = base[q],
+                        "LemmaBit")
               /\ PrintT(<<"FILE", ToJson([kind |-> c.kind, base |-> base, seq |-> c.seq, bytes |-> bs, view |-> v])>>)
 
 Sanity ==
@@ -315,6 +338,15 @@ Sanity ==
   /\ NewValue("der-1", <<9>>, 0, 0, -1, -1, 65537, <<>>, <<>>) = <<0>>
   /\ HasDer("der-1", 1) /\ ~HasDer("der-1", 0) /\ ~HasDer("der-half", -1) /\ HasDer("dec", -1)
   /\ ClassApplies("der-1", "length") /\ ClassApplies("der-half", "count") /\ ClassApplies("der-1", "offset") /\ ~ClassApplies("der-1", "index") /\ ClassApplies("half", "version")
-  /\ Cardinality(ValueClasses) = 26
+  /\ NewValue("bit0", <<0, 4>>, 0, 0, -1, -1, -1, <<>>, <<>>) = <<0, 5>>
+  /\ NewValue("bit3", <<0, 12>>, 0, 0, -1, -1, -1, <<>>, <<>>) = <<0, 4>>            \* cmap format 12 -> 4
+  /\ NewValue("bit15", <<0, 1>>, 0, 0, -1, -1, -1, <<>>, <<>>) = <<128, 1>>
+  /\ NewValue("bit6", <<3>>, 0, 0, -1, -1, -1, <<>>, <<>>) = <<67>>                 \* WOFF2 hmtx entry: transform version 0 -> 1
+  /\ NewValue("bit8", <<1, 2, 3, 4>>, 0, 0, -1, -1, -1, <<>>, <<>>) = <<1, 2, 2, 4>>
+  /\ HasBit("bit7", 1) /\ ~HasBit("bit8", 1) /\ HasBit("bit15", 2) /\ HasBit("max", 1)
+  /\ ClassApplies("bit3", "version") /\ ~ClassApplies("bit3", "value") /\ ~ClassApplies("bit0", "count")
+  /\ BitHolds("bit9", <<255, 255>>, <<253, 255>>) /\ ~BitHolds("bit9", <<255, 255>>, <<252, 255>>) /\ ~BitHolds("bit9", <<255, 255>>, <<255, 253>>)
+  /\ Cardinality(BitClasses) = 16 /\ \A b \in BitClasses : BitNo(b) \in 0 .. 15
+  /\ Cardinality(ValueClasses) = 42
   /\ ~Safe("Panic") /\ ~Safe("Timeout") /\ Safe("Err")
 =============================================================================
